@@ -20,6 +20,8 @@ pub enum Profile {
     /// the open-mode x target matrix
     Matrix,
     Mixed,
+    /// keep adding entries to one directory until it has to grow (several times)
+    Grow,
 }
 
 pub const MODES: [Mode; 6] = [Mode::ReadOnly, Mode::ReadWriteAppend, Mode::ReadWriteTruncate, Mode::ReadWriteCreate, Mode::ReadWriteCreateOrTruncate, Mode::ReadWriteCreateOrAppend];
@@ -123,6 +125,7 @@ impl Engine {
             Profile::Limits => [14, 8, 1, 2, 1, 1, 1, 2, 14, 9, 1, 2, 2, 16, 4, 8, 6, 2, 8],
             Profile::Matrix => [40, 14, 2, 8, 1, 2, 10, 5, 6, 3, 4, 2, 1, 1, 0, 0, 0, 0, 1],
             Profile::Mixed => [12, 8, 10, 14, 6, 4, 6, 4, 5, 4, 3, 4, 3, 3, 1, 2, 2, 1, 3],
+            Profile::Grow => [40, 30, 1, 4, 0, 2, 6, 6, 4, 1, 2, 3, 0, 0, 0, 0, 0, 0, 1],
         };
         for _ in 0..40 {
             let k = rng.weighted(&w);
@@ -134,6 +137,13 @@ impl Engine {
                     let fs = free_slot(&self.m.hfiles, maxf);
                     let mode = *rng.pick(&MODES);
                     let existing = if profile == Profile::Matrix { 60 } else { 50 };
+                    if profile == Profile::Grow && rng.chance(4, 5) {
+                        // a fresh name every time, preferably in a sub-directory: the directory must grow
+                        let ds = self.m.hdirs.iter().enumerate().filter(|(_, h)| h.as_ref().map(|h| !self.m.nodes[h.node].is_root).unwrap_or(false)).map(|(i, _)| i).next().unwrap_or(ds);
+                        let dir = self.m.hdirs[ds].as_ref().unwrap().node;
+                        let name = format!("G{}.X", self.m.nodes[dir].children.len() + self.ops.len() % 7 * 1000);
+                        return Op::OpenFile { fl, ds, name, mode: *rng.pick(&[Mode::ReadWriteCreate, Mode::ReadWriteCreateOrAppend, Mode::ReadWriteCreateOrTruncate]), fs };
+                    }
                     return Op::OpenFile { fl, ds, name: pick_name(rng, self, dir, existing), mode, fs };
                 }
                 1 => {
